@@ -33,7 +33,9 @@ type Mutex struct {
 func (m *Mutex) Lock() {
 	if !simrt.YieldCond("Mutex.Lock", func() bool { return !m.locked }, func() { m.locked = true }) {
 		m.real.Lock()
+		return
 	}
+	simrt.LockAcquired(m, true)
 }
 
 func (m *Mutex) TryLock() bool {
@@ -47,6 +49,9 @@ func (m *Mutex) TryLock() bool {
 			ok = true
 		}
 	})
+	if ok {
+		simrt.LockAcquired(m, true)
+	}
 	return ok
 }
 
@@ -56,6 +61,7 @@ func (m *Mutex) Unlock() {
 		return
 	}
 	bad := false
+	simrt.LockReleased(m, true)
 	simrt.Locked(func() {
 		if !m.locked {
 			bad = true
@@ -79,7 +85,9 @@ type RWMutex struct {
 func (m *RWMutex) Lock() {
 	if !simrt.YieldCond("RWMutex.Lock", func() bool { return !m.writer && m.readers == 0 }, func() { m.writer = true }) {
 		m.real.Lock()
+		return
 	}
+	simrt.LockAcquired(m, true)
 }
 
 func (m *RWMutex) Unlock() {
@@ -88,6 +96,7 @@ func (m *RWMutex) Unlock() {
 		return
 	}
 	bad := false
+	simrt.LockReleased(m, true)
 	simrt.Locked(func() {
 		if !m.writer {
 			bad = true
@@ -103,7 +112,9 @@ func (m *RWMutex) Unlock() {
 func (m *RWMutex) RLock() {
 	if !simrt.YieldCond("RWMutex.RLock", func() bool { return !m.writer }, func() { m.readers++ }) {
 		m.real.RLock()
+		return
 	}
+	simrt.LockAcquired(m, false)
 }
 
 func (m *RWMutex) RUnlock() {
@@ -112,6 +123,7 @@ func (m *RWMutex) RUnlock() {
 		return
 	}
 	bad := false
+	simrt.LockReleased(m, false)
 	simrt.Locked(func() {
 		if m.readers <= 0 {
 			bad = true
@@ -136,6 +148,9 @@ func (m *RWMutex) TryLock() bool {
 			ok = true
 		}
 	})
+	if ok {
+		simrt.LockAcquired(m, true)
+	}
 	return ok
 }
 
@@ -150,6 +165,9 @@ func (m *RWMutex) TryRLock() bool {
 			ok = true
 		}
 	})
+	if ok {
+		simrt.LockAcquired(m, false)
+	}
 	return ok
 }
 
